@@ -38,6 +38,19 @@ theorem C01_trace_times_monotone {cfg : Config S} (hdt : 0 ≤ cfg.dt) {P : Node
   rw [List.filterMap_reverse]
   exact List.pairwise_reverse.mpr this
 
+/-- the same under a tolerant stepped driver (`ReachableT`: steps out of which a callback's exception escaped are
+    part of the run): the times reported to callbacks never decrease, executed timestamps never decrease -/
+theorem C01_times_monotone_tolerant {cfg : Config S} (hdt : 0 ≤ cfg.dt) {P : NodeId → Proto S σ}
+    {w : World S σ} (h : ReachableT cfg P w) :
+    (cbTimes w.trace).Pairwise (fun a b => a ≤ b) ∧ w.executed.Pairwise (fun a b => a.ts ≤ b.ts) := by
+  constructor
+  · have := (reachableT_tinv hdt h).mono
+    unfold World.trace cbTimes
+    rw [List.filterMap_reverse]
+    exact List.pairwise_reverse.mpr this
+  · unfold World.executed
+    exact List.pairwise_reverse.mpr ((reachableT_inv hdt h).exec_sorted.imp keyLt_ts_le)
+
 /-- every callback run while executing event `e` reports exactly `e.ts` (the instant it was due),
     provided a timer handler — the only source of the clock for protocols — is configured
     (without one `PythonProvider.current_time()` returns 0 by documented design) -/
